@@ -23,6 +23,8 @@ def check(ctx):
     ctx.rule("IDX-1", "one loop-invariant row index for all yielded columns")
     ctx.rule("ORD-1", "lexsort keys in reversed user order; rank(method='min'); no other sort primitive")
     ctx.rule("DIR", "uses of dir dominated by the 1/-1 validation")
+    ctx.rule("ORD-key", "dtype-class dataflow over sort_key: negation / complement / conversions of a key only on the element "
+             "types where they keep all order information")
     ctx.rule("GRD-empty", "reductions guarded for empty operands")
     ctx.rule("GRD-width", "fixed-width cast width >= 1")
     ctx.rule("OWN-2", "no write on the receiver while sorting")
@@ -117,6 +119,30 @@ def check(ctx):
                        f"direction {dparam} is used without having been validated: values other than 1/-1 silently sort "
                        f"in some direction", clause="requested directions")
     ctx.count("uses of the direction", n_dir, 2)
+    # ------------------------------------------------------------- ORD-key
+    from ..dtclass import operations, SAFE
+    keyvars = set()
+    for _, leaf, _f in __import__("sa.forms", fromlist=["value_cases"]).value_cases(key, "return"):
+        for nn in ast.walk(leaf):
+            if isinstance(nn, ast.Name):
+                keyvars.add(nn.id)
+    keyvars -= set(key.params)
+    n_ops = 0
+    for var in sorted(keyvars):
+        for node, op, classes in operations(key, var):
+            n_ops += 1
+            bad = sorted(classes - SAFE[op])
+            what = {"neg": "negation", "invert": "bitwise complement"}.get(op, op + "()")
+            ctx.ob("ORD-key", key, f"{what} of the sort key: {norm(node)}", node, not bad,
+                   f"{what} is applied only to element types {sorted(classes)} on which it keeps every order relation" if not bad else
+                   f"{what} is applied to a key that may be of element type {bad} (I signed / U unsigned integer, F float, "
+                   f"SF/SV string, DT datetime, B bool, O object): "
+                   + ("unsigned integers wrap around (0 stays first) and the smallest signed integer overflows to itself, so a "
+                      "descending sort misplaces those rows" if op == "neg" else
+                      "integers above 2**53 that differ only in low bits become equal, so they are no longer ordered"
+                      if op == "as_float" else "the operation does not preserve the order on that type"),
+                   clause="numbers numerically ... in the requested directions")
+    ctx.count("order-relevant operations on the sort key", n_ops, 1)
     # ------------------------------------------------- GRD / OWN
     n = grd_empty(ctx, [sort], "sorting succeeds for empty frames and entirely missing columns",
                   only=lambda f: f.module.name in ("dataiter.vector", "dataiter.data_frame")
